@@ -41,7 +41,9 @@ ASSUMPTIONS = ["decomp name (comp name x) = x for every registered compressor", 
 RULE = ("ops over the grid registry {-,c1,c1+c2} x UseCompressor {-,c1,c2,c3,identity} x WithCompressor {-,c1,lz} x WithDecompressor {-,c1,lz} x "
         "AcceptCompressors {nil,c1,c2,c1+c2,c3,...} x RPCCompressor {-,c1,lz} x RPCDecompressor {-,c1,lz} x SetSendCompressor {-,identity,c1,c2,c3} "
         "x message lists (empty message, non-empty, mixed): quick = directed sub-grids + random sample; thorough = the whole e2e grid; raw peers: "
-        "arbitrary grpc-encoding / grpc-accept-encoding values and frames with flag 0/1/2, well- and ill-compressed payloads. "
+        "arbitrary grpc-encoding / grpc-accept-encoding values and frames with flag 0/1/2, well- and ill-compressed payloads; a directed "
+        "family of names that are substrings / superstrings / case variants of each other and of advertised lists with white space and "
+        "empty tokens (the membership test of SetSendCompressor must be exact on trimmed tokens). "
         "Non-trivial op = some compression option/header is set.")
 
 REGS = ["-", "c1", "c1+c2"]
@@ -129,6 +131,38 @@ def raw_directed():
             yield "raws %s - - %s %s 6162 %s %s" % (reg, cdc, accept, renc, fr)
 
 
+# Names that are related as strings without being equal: c12 / xc1 contain c1, C1 differs in case only.
+# The advertised list is a comma-separated header whose tokens are compared EXACTLY after trimming
+# white space (`~` = space in the op syntax): membership must not be confused with substring, prefix,
+# case-insensitive or untrimmed comparison, nor be disturbed by empty tokens.
+REL_REGS = ["c1+c12", "c1+xc1", "c12+c1+c2", "c1+c2"]
+REL_ACCS = ["c12", "xc1", "c12,c2", "c2,xc1", "c2,c12,xc1", "C1", "C1,c2", "c", "1", "c1c2", "c1;c2",
+            "~c1", "c1~", "c2,~c1~", "~c1~,~c2~", ",c1", "c1,", "c2,,c1", ",", "c1~c2", "c12,c1", "xc1,c1"]
+REL_SETS = ["c1", "c12", "xc1", "c2"]
+
+
+def related_names():
+    """directed family: SetSendCompressor / same-as-request selection against advertised lists whose
+    tokens merely resemble the chosen name"""
+    for reg, acc, ss in itertools.product(REL_REGS, REL_ACCS, REL_SETS):
+        if ss not in reg.split("+"):
+            continue
+        for enc in ("-", "c2"):
+            if enc != "-" and enc not in reg.split("+"):
+                continue
+            fr = "0:6162" if enc == "-" else "1:" + comp(enc, "6162")
+            yield "rawc %s - - %s %s %s %s 6364,e" % (reg, ss, enc, acc, fr)
+    # the same through the real client: AcceptCompressors restricts what is advertised
+    for reg, accept, ss, use in itertools.product(["c1+c12", "c1+xc1", "c12+c1+c2"],
+                                                  ["c12", "xc1", "c12+c2", "~c12~", "c1", "c12+c1"], REL_SETS, ["-", "c12"]):
+        names = reg.split("+")
+        if ss not in names or (use != "-" and use not in names):
+            continue
+        if any(a.strip("~") not in names for a in accept.split("+")):
+            continue
+        yield e2e(reg=reg, use=use, accept=accept, setsend=ss, reqs="6162", resps="6364,e")
+
+
 def rand_e2e(rng):
     return e2e(rng.choice(REGS + ["c2+c1"]), rng.choice(USES), rng.choice(LEGS), rng.choice(LEGS), rng.choice(ACCEPTS_X),
                rng.choice(LEGS), rng.choice(LEGS), rng.choice(SETS), rng.choice(MSGS), rng.choice(MSGS))
@@ -143,10 +177,13 @@ def gen(rng, tier):
         r = list(raw_directed())
         rng.shuffle(r)
         ops += r[:900]
-        ops += [rand_e2e(rng) for _ in range(500)]
-        ops += [rawc(rng) for _ in range(350)] + [raws(rng) for _ in range(350)]
+        rel = list(related_names())
+        rng.shuffle(rel)
+        ops += rel[:400]
+        ops += [rand_e2e(rng) for _ in range(400)]
+        ops += [rawc(rng) for _ in range(300)] + [raws(rng) for _ in range(300)]
     else:
-        ops += list(directed()) + list(raw_directed())
+        ops += list(directed()) + list(raw_directed()) + list(related_names())
         if tier == "thorough":
             ops += list(full_grid(rng))
         ops += [rand_e2e(rng) for _ in range(4000)]
